@@ -97,7 +97,20 @@ type c16Case struct {
 	Reenter  bool     `json:"reenter,omitempty"`
 	Name     string   `json:"name,omitempty"`  // the name registered and called ("" = probe); may be the name of a built-in
 	Prior    bool     `json:"prior,omitempty"` // a raw handler is registered under the name first: a refused registration leaves it in place
+	NilChan  bool     `json:"nilchan,omitempty"` // a channel result is the nil channel (what a handler returns when it forgot to make one)
 	Args     []mval   `json:"args"`
+}
+
+func (c c16Case) nilChanResult() bool {
+	if !c.NilChan {
+		return false
+	}
+	for _, o := range c.Out {
+		if t, ok := c16Types[o]; ok && t.Kind() == reflect.Chan {
+			return true
+		}
+	}
+	return false
 }
 
 func (c c16Case) signature() string {
@@ -306,6 +319,8 @@ func (c c16Case) build(p *c16Probe) any {
 				res[i] = reflect.ValueOf(Errno(5))
 			case t == "ErrStruct":
 				res[i] = reflect.ValueOf(ErrStruct{7})
+			case c.NilChan && c16Types[t].Kind() == reflect.Chan:
+				res[i] = reflect.Zero(c16Types[t])
 			case t == "chanMyErr":
 				ch := make(chan *MyErr, 1)
 				if c.Fail {
@@ -517,7 +532,11 @@ func runC16(c c16Case) Verdict {
 	}
 	desc := fmt.Sprintf("%s called as %s", sig, stmt)
 	ev := stepTimed(h, 0, 20*time.Second)
-	for i := 0; ev.K == "wait" && i < 30000; i++ { // handlers without a channel run in a goroutine: completion is asynchronous
+	polls := 30000
+	if c.nilChanResult() {
+		polls = 300
+	}
+	for i := 0; ev.K == "wait" && i < polls; i++ { // handlers without a channel run in a goroutine: completion is asynchronous
 		time.Sleep(time.Millisecond)
 		ev = stepTimed(h, 0, 20*time.Second)
 	}
@@ -527,7 +546,7 @@ func runC16(c c16Case) Verdict {
 	if ev.K == "panic" {
 		return failf("%s: the bridge panicked: %s", desc, ev.Text)
 	}
-	if ev.K == "wait" {
+	if ev.K == "wait" && !c.nilChanResult() {
 		return failf("%s: the command never completed", desc)
 	}
 	// does the argument list fit?
@@ -588,6 +607,11 @@ func runC16(c c16Case) Verdict {
 		}
 	}
 	// result
+	if c.nilChanResult() {
+		// a nil channel never delivers: an error (what the unit tests pin), going on, or waiting for ever are all
+		// defensible; a panic or a Next that blocks (both decided above) are not
+		return Verdict{NonTrivial: true, Classes: append(cls, "invoked", "nil-channel-result", "nil-channel-"+ev.K)}
+	}
 	for _, o := range c.Out {
 		if isLooseErrorType(o) || isLooseChan(o) {
 			if ev.K != "err" && ev.K != "line" {
@@ -704,6 +728,11 @@ func genC16(t *rapid.T) c16Case {
 			class = rapid.SampledFrom([]byte{'n', 'b', 's'}).Draw(t, "class")
 		}
 		c.Args = append(c.Args, genC16Arg(t, class))
+	}
+	for _, o := range c.Out {
+		if c16Types[o].Kind() == reflect.Chan {
+			c.NilChan = rapid.IntRange(0, 3).Draw(t, "nilchan") == 0
+		}
 	}
 	return c
 }
